@@ -96,14 +96,18 @@ def generate(run_seed: int, cfg: Dict[str, Any]) -> Dict[str, Any]:
     faulty = bool(cfg.get("faulty", run_seed % 2 == 1))
     n_tables = rk.choice([1, 2, 2, 3])
     tables = {}
+    tables_b = {}
     for i in range(n_tables):
         nm = f"t{i}"
-        tables[nm] = W.gen_table(rd, nm, n_rows=rd.choice([0, 1, 2, 3, 4, 5, 6, 8, 10]))
+        shape = rd.randrange(4)
+        tables[nm] = W.gen_table(rd, nm, n_rows=rd.choice([0, 1, 2, 3, 4, 5, 6, 8, 10]), shape=shape)
+        # a second batch of data for the same table name (same columns): evaluations alternate between the two
+        tables_b[nm] = W.gen_table(rd, nm, n_rows=rd.choice([1, 2, 3, 5, 8]), shape=shape)
     n_pipes = rk.choice([2, 3, 4, 6])
     pipes = []
     for _ in range(n_pipes):
         # windowed steps over constants and key-less joins are where scratch columns live: bias towards them
-        pipes.append(W.gen_pipeline(rp, tables, max_steps=rk.choice([2, 4, 6])))
+        pipes.append(W.gen_pipeline(rp, tables, max_steps=rk.choice([2, 4, 6]), want_diamond=rp.random() < 0.35))
     index = {n: {"kind": rs.choice(W.INDEX_KINDS), "labels": rs.sample(range(W.table_nrows(t)), W.table_nrows(t))}
              for n, t in tables.items()}
     knobs = {"polars_lazy_eval": rk.random() < 0.6, "polars_lazy_frame": rk.random() < 0.3,
@@ -114,7 +118,19 @@ def generate(run_seed: int, cfg: Dict[str, Any]) -> Dict[str, Any]:
     noise_rate = rk.choice([0.1, 0.25])
     ops = []
     mutate_rate = rk.choice([0.0, 0.1, 0.2]) if faulty else 0.0
-    for i in range(n_ops):
+    warmup = rk.random() < 0.5
+    nid = 0
+    if warmup:
+        # every (pipeline, backend, batch) is evaluated once before anything can go wrong
+        for pi in range(n_pipes):
+            for backend in ("pandas", "polars"):
+                for variant in (0, 1):
+                    ops.append({"id": nid, "client": 0, "kind": "eval", "pipe": pi, "backend": backend, "style": "eval",
+                                "variant": variant, "warmup": True})
+                    nid += 1
+    for _ in range(n_ops):
+        i = nid
+        nid += 1
         client = rs.randrange(n_clients)
         evals = [o["id"] for o in ops if o["kind"] == "eval" and o["backend"] == "pandas" and "abort_at" not in o]
         if evals and rf.random() < mutate_rate:
@@ -130,13 +146,13 @@ def generate(run_seed: int, cfg: Dict[str, Any]) -> Dict[str, Any]:
         single = len(W.pipeline_tables(pipes[pi])) == 1
         backend = ro.choice(["pandas", "pandas", "polars"])
         style = ro.choice(STYLES_SINGLE if single else STYLES_MULTI)
-        op = {"id": i, "client": client, "kind": "eval", "pipe": pi, "backend": backend, "style": style}
+        variant = 0 if style in ("ex", "ex_descr") else ro.randrange(2)
+        op = {"id": i, "client": client, "kind": "eval", "pipe": pi, "backend": backend, "style": style, "variant": variant}
         if rf.random() < abort_rate:
-            op["abort_at"] = rf.choice([0, 1, 1, 2, 2, 3, 3, 4, 5, 6, 8, 10, 13])
-            op["style"] = "eval"  # the executor seam is the data_model argument of eval()
+            op["abort_at"] = rf.choice([0, 1, 1, 2, 2, 3, 3, 4, 5, 6, 8, 10, 13, 17])
         ops.append(op)
-    return {"prop": PROP, "seed": run_seed, "faulty": faulty, "tables": tables, "pipes": pipes, "index": index,
-            "knobs": knobs, "ops": ops}
+    return {"prop": PROP, "seed": run_seed, "faulty": faulty, "tables": tables, "tables_b": tables_b, "pipes": pipes,
+            "index": index, "knobs": knobs, "ops": ops}
 
 
 # ---------------------------------------------------------------- execution ---------------------------
@@ -148,14 +164,20 @@ def _run(scn, log: EventLog, stats: Stats):
     import data_algebra.SQLite
     from data_algebra.data_ops import TableDescription, data, describe_table, descr
 
-    from sim.simmodel import AbortPlan, make_sim_pandas_model, make_sim_polars_model
+    from sim.simmodel import AbortPlan
 
+    from sim.core import fresh_models
+
+    fresh_models()
     kn = scn["knobs"]
     # ---- the pool of caller-owned frames
     pool: Dict[str, Any] = {}
-    for n, t in scn["tables"].items():
-        pool["pd:" + n] = W.to_pandas(t, scn["index"][n])
-        pool["pl:" + n] = W.to_polars(t, lazy=kn["polars_lazy_frame"])
+    batches = [scn["tables"], scn.get("tables_b") or scn["tables"]]
+    for vi, tabs_v in enumerate(batches):
+        for n, t in tabs_v.items():
+            pool[f"pd:{n}:{vi}"] = W.to_pandas(t, scn["index"][n] if W.table_nrows(t) == W.table_nrows(scn["tables"][n])
+                                               else {"kind": scn["index"][n]["kind"], "labels": list(range(W.table_nrows(t)))})
+            pool[f"pl:{n}:{vi}"] = W.to_polars(t, lazy=kn["polars_lazy_frame"])
     snaps = {k: snapshot(v) for k, v in pool.items()}
     plain = {n: TableDescription(table_name=n, column_names=[c["name"] for c in t["cols"]])
              for n, t in scn["tables"].items()}
@@ -166,8 +188,8 @@ def _run(scn, log: EventLog, stats: Stats):
         except Exception:  # e.g. a LazyFrame has no shape to describe
             return None
 
-    captured = {"pandas": {n: _cap(pool["pd:" + n], n) for n in scn["tables"]},
-                "polars": {n: _cap(pool["pl:" + n], n) for n in scn["tables"]}}
+    captured = {"pandas": {n: _cap(pool["pd:" + n + ":0"], n) for n in scn["tables"]},
+                "polars": {n: _cap(pool["pl:" + n + ":0"], n) for n in scn["tables"]}}
     # frames the descriptions captured (descr() keeps d.head(7), a separate object, for tables of more than 7 rows):
     # evaluation reads them too, so the F6 guard below watches them as well
     heads = {}
@@ -178,11 +200,21 @@ def _run(scn, log: EventLog, stats: Stats):
     head_snaps = {k: snapshot(v) for k, v in heads.items()}
     plan = AbortPlan()
     plan.enabled = False
-    sim_pd = make_sim_pandas_model(plan)
-    sim_pl = make_sim_polars_model(plan, use_lazy_eval=kn["polars_lazy_eval"])
+    import data_algebra.data_model
     import data_algebra.polars_model
+    import pandas as _pd
+    import polars as _pl
 
+    from sim.simmodel import Installed, install_hooks
+
+    # the abort seam sits on the very model objects every call style uses: the process-wide default Pandas model,
+    # the process-wide default Polars model (used by >>) and the Polars model handed to eval/transform/ex
+    default_pd = data_algebra.data_model.lookup_data_model_for_dataframe(_pd.DataFrame({"x": [1]}))
+    default_pl = data_algebra.data_model.lookup_data_model_for_dataframe(_pl.DataFrame({"x": [1]}))
     real_pl = data_algebra.polars_model.PolarsModel(use_lazy_eval=kn["polars_lazy_eval"])
+    installed = Installed()
+    for m in (default_pd, default_pl, real_pl):
+        install_hooks(m, plan, installed)
     db = data_algebra.SQLite.example_handle()
     for n, t in scn["tables"].items():
         db.insert_table(W.to_pandas(t), table_name=n, allow_overwrite=True)
@@ -207,26 +239,27 @@ def _run(scn, log: EventLog, stats: Stats):
                 built[key] = ex
         return built[key]
 
-    determinate: Dict[Tuple[int, str], bool] = {}
+    determinate: Dict[Tuple[int, str, int], bool] = {}
 
-    def is_determinate(pi: int, backend: str) -> bool:
+    def is_determinate(pi: int, backend: str, variant: int) -> bool:
         """A pipeline with an ordered window or an order_rows(limit) over an ordering that is not total (ties, nulls)
         has no single relational result - which rows survive is the engine's free choice, and Polars does vary it
         from call to call. Such a pipeline is still evaluated (I1 applies) but its results are neither compared
         (I2) nor logged. Judged per backend on that backend's own prefix results, over fresh copies of the inputs."""
-        key = (pi, backend)
+        key = (pi, backend, variant)
         if key in determinate:
             return determinate[key]
         from sim.props.c18 import _total, ordered_rows
 
         pipe = scn["pipes"][pi]
         ok = True
+        src_tabs = batches[variant]
         try:
             if backend == "pandas":
-                fresh = {n: W.to_pandas(scn["tables"][n]) for n in W.pipeline_tables(pipe)}
+                fresh = {n: W.to_pandas(src_tabs[n]) for n in W.pipeline_tables(pipe)}
                 ev = lambda o: o.eval(fresh)  # noqa: E731
             else:
-                fresh = {n: W.to_polars(scn["tables"][n]) for n in W.pipeline_tables(pipe)}
+                fresh = {n: W.to_polars(src_tabs[n]) for n in W.pipeline_tables(pipe)}
                 ev = lambda o: o.eval(fresh, data_model=real_pl)  # noqa: E731
             for upto in range(1, len(pipe["steps"]) + 1):
                 need = W.step_needs_total_order(pipe["steps"][upto - 1])
@@ -297,31 +330,30 @@ def _run(scn, log: EventLog, stats: Stats):
                         elif w == "columns_used":
                             o.columns_used()
                         elif w == "describe_table":
-                            describe_table(pool["pd:" + tabs[0]], table_name=tabs[0])
-                            describe_table(pool["pl:" + tabs[0]], table_name=tabs[0])
+                            describe_table(pool["pd:" + tabs[0] + ":0"], table_name=tabs[0])
+                            describe_table(pool["pl:" + tabs[0] + ":1"], table_name=tabs[0])
                     except Exception:
                         stats.probe("noise-op-raised")
                 check_pool("noise:" + op["what"], step, "no-fault")
                 continue
             backend, style = op["backend"], op["style"]
+            variant = int(op.get("variant", 0))
             kinds.append(f"{style}:{backend}")
             prefix = "pd:" if backend == "pandas" else "pl:"
-            inputs = {n: pool[prefix + n] for n in tabs}
+            inputs = {n: pool[f"{prefix}{n}:{variant}"] for n in tabs}
             flavour = ("cap:" + backend) if style in ("ex", "ex_descr") else "plain"
             o = get_ops(pi, flavour)
             if isinstance(o, Exception):
                 stats.probe("pipeline-rejected-by-builder")
                 continue
-            ident = (pi, backend, style)
+            ident = (pi, backend, style, variant)
             abort_at = op.get("abort_at")
             exc = None
             res = None
             plan.enabled = abort_at is not None
             plan.arm(abort_at)
             try:
-                if abort_at is not None:
-                    res = o.eval(inputs, data_model=sim_pd if backend == "pandas" else sim_pl)
-                elif style == "eval":
+                if style == "eval":
                     res = o.eval(inputs) if backend == "pandas" else o.eval(inputs, data_model=real_pl)
                 elif style == "transform":
                     res = o.transform(inputs[tabs[0]]) if backend == "pandas" else o.transform(inputs[tabs[0]], data_model=real_pl)
@@ -348,7 +380,8 @@ def _run(scn, log: EventLog, stats: Stats):
                 stats.probe("abort@" + fired.split(":")[0])
                 log.emit("sim", "fault-fired", {"site": fired})
                 ctx = "abort@" + fired
-                aborted_since[(pi, backend)] = True
+                for k_ in list(first) + [ident]:
+                    aborted_since[(k_[0], k_[1])] = True
             # I1: the caller's frames, after every operation
             check_pool(style, step, ctx if fired else ("after-abort" if any(aborted_since.values()) else "no-fault"))
             if isinstance(exc, SimAbort):
@@ -381,7 +414,7 @@ def _run(scn, log: EventLog, stats: Stats):
                 if res is v:
                     raise Violation((PROP, backend, style, "returned-callers-object"), k, step)
             results[op["id"]] = res
-            if not is_determinate(pi, backend):
+            if not is_determinate(pi, backend, variant):
                 log.emit(backend, "result-not-determined-by-the-pipeline", None)
                 continue
             cols = [str(c) for c in res.columns]
@@ -406,6 +439,7 @@ def _run(scn, log: EventLog, stats: Stats):
                     aborted_since[(pi, backend)] = False
             stats.state({"n_first": len(first)})
     finally:
+        installed.uninstall()
         try:
             db.close()
         except Exception:
@@ -462,6 +496,15 @@ def reductions(scn):
             lab = c["index"][n].get("labels") or []
             c["index"][n]["labels"] = [q for q in lab if q != nr - 1]
             yield c
+    for n in sorted(scn.get("tables_b", {})):
+        nr = W.table_nrows(scn["tables_b"][n])
+        for i in range(nr):
+            if nr <= 1:
+                break
+            c = _copy.deepcopy(scn)
+            for col in c["tables_b"][n]["cols"]:
+                del col["values"][i]
+            yield c
     for n in sorted(scn["index"]):
         if scn["index"][n]["kind"] != "default":
             c = _copy.deepcopy(scn)
@@ -477,7 +520,8 @@ def reductions(scn):
 
 def sample_view(scn):
     return {"seed": scn["seed"], "faulty": scn["faulty"], "knobs": scn["knobs"],
-            "tables": {n: {"rows": W.table_nrows(t), "index": scn["index"][n]["kind"]} for n, t in scn["tables"].items()},
+            "tables": {n: {"rows": W.table_nrows(t), "rows_second_batch": W.table_nrows(scn["tables_b"][n]),
+                           "index": scn["index"][n]["kind"]} for n, t in scn["tables"].items()},
             "pipelines": [W.describe_pipeline(p) for p in scn["pipes"]][:3],
             "first_ops": [{k: v for k, v in o.items() if k != "id"} for o in scn["ops"][:10]]}
 
